@@ -335,7 +335,12 @@ def exec_stdio_case(ctx, case: Dict[str, Any]) -> None:
                 answers = [{"jsonrpc": "2.0", "id": r["id"], "result": {"tag": r["params"]["tag"]}} for r in reqs]
                 junk = [{"jsonrpc": "2.0", "id": None, "error": {"code": -32600, "message": "Invalid Request"}},
                         {"foo": 1}, 42]
-                if form == "lines":
+                if form == "lines_after_burst":
+                    # one write: more unrelated messages than the read stream buffers, then the answers
+                    noise = "".join(json.dumps({"jsonrpc": "2.0", "method": "notifications/message",
+                                                "params": {"level": "info", "data": k}}) + "\n" for k in range(150))
+                    payload = noise + "".join(json.dumps(a) + "\n" for a in answers)
+                elif form == "lines":
                     payload = "".join(json.dumps(a) + "\n" for a in answers)
                 elif form == "batch":
                     payload = json.dumps(answers) + "\n"
@@ -509,6 +514,11 @@ def run(ctx):
             case = {"n": n, "form": form, "via": "stdio"}
             if ctx.mine():
                 exec_stdio_case(ctx, case)
+    # a burst of unrelated messages ahead of the answer: one caller only (with several, the unrelated messages put the
+    # waiters out of step with the answer order, which is the known demultiplexing finding, not a transport loss)
+    case = {"n": 1, "form": "lines_after_burst", "via": "stdio"}
+    if ctx.mine():
+        exec_stdio_case(ctx, case)
     for case in gen_cases(ctx):
         if not ctx.mine():
             continue
